@@ -243,3 +243,78 @@ def rule_own_text(prog):
                          "boundary), so moving layers into an included file turns an accepted configuration into a crash"
                          % (f.norm.split("::{closure")[0].split("::")[-1], how))
     return res
+
+
+def rule_label_column(prog):
+    """R-LABEL-COLUMN (C03): a diagnostic is only rendered with a source snippet when its label starts within a bounded column.
+
+    "Rendering the diagnostic for the user does not crash either": the graphical report handler (miette) pads the underline of a
+    label with `format!("{:width$}", ..)`, and a format width has to fit in 16 bits - a label that starts right of column
+    65535 makes `kanata --check`, start-up and live reload panic with "Formatting argument out of range" instead of printing
+    the error (reproduced; repaired in /repo 9c38ca8). The conversion ParseError -> miette::Error therefore has to drop the
+    span (and say the position in words) when the label lies too far right.
+
+    Rule: (1) the bound MAX_LABEL_COLUMN exists and four times its value (a tab is rendered four columns wide) fits a 16-bit
+    width; (2) a guard function of the error module compares a column with that constant; (3) the conversion calls the
+    guard, every SourceSpan it builds (in itself or in a closure created there) comes after that call, and the removal of
+    the span (`val.span.take()`) is conditional on it."""
+    from kq.core import callee_name, const_def, is_const
+    res = RuleResult("R-LABEL-COLUMN", "a label is only rendered when its column is bounded (the report renderer's format width is 16 bits)", floor=1)
+    ERRMOD = "kanata_parser::cfg::error::"
+    cname = ERRMOD + "MAX_LABEL_COLUMN"
+    c = prog.consts.get(cname)
+    okc = c is not None and isinstance(c.get("v"), int) and 0 < c["v"] * 4 < 65536
+    res.inst("bound", where="parser/src/cfg/error.rs", value=(c or {}).get("v"), ok=okc)
+    res.oblige(okc)
+    if not okc:
+        res.viol("bound", "parser/src/cfg/error.rs",
+                 "the column bound MAX_LABEL_COLUMN is missing or too large (%s): with a tab rendered as four columns the padding width "
+                 "handed to format! must stay below 65536, or rendering the diagnostic panics" % ((c or {}).get("v"),))
+    guards = []
+    for g in prog.fns.values():
+        if not g.norm.startswith(ERRMOD) or g.kind == "closure":
+            continue
+        n = 0
+        for h in [g] + list(prog.closures_of(g)):
+            for bi, si, st in h.all_rvalues():
+                rv = st["rv"]
+                if rv["k"] == "bin" and rv["op"] in ("Le", "Lt", "Gt", "Ge") and any(is_const(o) and (const_def(o) or "") == cname for o in (rv["a"], rv["b"])):
+                    n += 1
+        if n:
+            guards.append((g, n))
+    okg = bool(guards)
+    res.inst("guard", where=guards[0][0].loc if guards else "parser/src/cfg/error.rs", functions=[g.norm.split("::")[-1] for g, _ in guards],
+             comparisons=sum(n for _, n in guards), ok=okg)
+    res.oblige(okg)
+    if not okg:
+        res.viol("guard", "parser/src/cfg/error.rs", "no function of the error module compares a column with MAX_LABEL_COLUMN")
+        return res
+    convs = [f for f in prog.fns.values() if f.crate == "kanata_parser" and f.kind != "closure" and f.norm.endswith("::from")
+             and "ParseError" in f.norm and "miette" in f.norm]
+    if not convs:
+        res.viol("anchor/conversion", "parser/src/cfg/error.rs", "the conversion ParseError -> miette::Error was not found")
+        return res
+    f = convs[0]
+    res.fn(f)
+    gnames = {g.norm for g, _ in guards}
+    from kq.analysis import calls_incl_closures
+    gcalls = calls_incl_closures(prog, f, lambda t: (callee_name(t) or "") in gnames)
+    okcall = bool(gcalls)
+    spans_ok, n_spans = True, 0
+    for bi, t in calls_incl_closures(prog, f, lambda t: (callee_name(t) or "").endswith("SourceSpan::new")):
+        n_spans += 1
+        if not any(f.dominates(gb, bi) and gb != bi for gb, _ in gcalls):
+            spans_ok = False
+    takes = [bi for bi, t in f.calls() if (callee_name(t) or "") in ("core::option::Option::take", "core::mem::take")]
+    pd = f.postdominators()
+    cond_take = any(any(f.dominates(gb, tb) and not f.postdominates(tb, gb, pd) for gb, _ in gcalls) for tb in takes)
+    ok = okcall and spans_ok and n_spans >= 1 and cond_take
+    res.inst("conversion", where=f.loc, guard_calls=len(gcalls), labelled_spans=n_spans, spans_after_guard=spans_ok, span_dropped_conditionally=cond_take, ok=ok)
+    res.oblige(ok)
+    if not ok:
+        res.viol("conversion", f.loc,
+                 "the conversion ParseError -> miette::Error builds the labelled span without first testing its column against "
+                 "MAX_LABEL_COLUMN and dropping the span when it lies beyond (guard calls: %d, spans built after the guard: %s, span "
+                 "removed conditionally: %s): an error located right of column 65535 makes the report renderer panic instead of "
+                 "printing the diagnostic" % (len(gcalls), spans_ok, cond_take))
+    return res
